@@ -29,6 +29,20 @@ CLAIMED = {
         technique="symbolic execution (CrossHair/z3) of real constructors vs Specification oracle, path-tree exhaustion",
         ref="3/C02",
     ),
+    "C04": dict(
+        text="Symbolic execution of the real grammar visitor and expression operators: an expression TREE is rendered "
+        "to text (minimal parentheses by the Specification's precedence table, without blanks, and fully parenthesised) "
+        "and read by the real reader with its identifiers resolved to symbolic values; the result must equal an "
+        "independent tree evaluator (exact Fractions) or both must be 'undefined'. Integer atoms are unbounded except "
+        "in divisor/exponent/bitwise positions ([-2,2]); all type-correct operator pairs (depth 2), unary interplay, "
+        "seeded depth-3 trees, operand-kind x operator definedness, set algebra, literal spellings and the value sinks "
+        "(constant, capacity, @assert, @print, @extent).",
+        note="Identifier injection and @capture are harness-side (subclass of the real DataTypeBuilder). "
+        "Grammar.parse on concrete text runs natively (tracing off) - same real code, not traced. Non-integer "
+        "exponents are outside the claim (pydsdl uses floats there).",
+        technique="symbolic execution (CrossHair/z3) of real parser+evaluator vs tree oracle, path-tree exhaustion",
+        ref="3/C04",
+    ),
     "C11": dict(
         text="Symbolic execution of the real cross-definition checks on real Structure/Delimited/Service objects: "
         "majors, minors, port-IDs (present/absent) and extents are symbolic over their whole legal ranges; accepted "
